@@ -127,10 +127,69 @@ def rule_info_set(repo: Repo, rep: Report) -> int:
     return n + 4
 
 
+def encoder_evaluated(repo: Repo):
+    """The per-block encoder (the function handed to apply_blockwise, class helpers followed) evaluated for N = 4 and 8
+    with every message of k bits, both frozen values, both interleaving options and a scattered information mask:
+    the codeword is u (message on the information positions in order, frozen value elsewhere) times F^(x)m, columns
+    bit-reversed for the interleaved variant."""
+    from ..constfold import BoolList, Unfoldable
+    from ..frag import FragRaise, FragReturn, run_fragment
+
+    ci = repo.cls(PE, "PolarCodeEncoder")
+    fwd = repo.method(ci, "forward")
+    cl = fwd.nested("encode_fn")
+    if cl is None or len(cl.node.args.args) != 1:
+        return None, "per-block encoder function not found"
+    funcs = {nm: f.node for nm, f in ci.module.functions.items()}
+    funcs.update({f"self.{nm}": m.node for nm, m in ci.methods.items() if nm not in ("forward", "__init__")})
+    param = cl.node.args.args[0].arg
+
+    def kron(m):
+        G = [[1]]
+        for _ in range(m):
+            n_ = len(G)
+            G = [[(G[i % n_][j % n_] if not (i < n_ and j >= n_) else 0) for j in range(2 * n_)] for i in range(2 * n_)]
+        return G
+
+    words = 0
+    for N, info in ((4, [1, 3]), (8, [3, 5, 6, 7]), (8, [0, 2, 7])):
+        m = N.bit_length() - 1
+        k = len(info)
+        G = kron(m)
+        msgs = [[(w >> (k - 1 - t)) & 1 for t in range(k)] for w in range(2**k)]
+        for fz in (True, False):
+            for pi in (False, True):
+                attrs = {"self.code_length": N, "self.m": m, "self.code_dimension": k, "self.mask_dict": None, "self.polar_i": pi, "self.frozen_zeros": fz, "self.dtype": "torch.float32", "self.device": "cpu", "self.info_indices": BoolList([i in info for i in range(N)])}
+                try:
+                    run_fragment(cl.body, {param: [[float(b) for b in r] for r in msgs]}, attrs, funcs=funcs, materialise=True, max_steps=4000000, attrs_live=True)
+                    return None, "no value returned"
+                except FragReturn as ret:
+                    out = ret.value
+                except (Unfoldable, FragRaise, TypeError, IndexError, ValueError) as exc:
+                    return None, f"N = {N}: {exc}"
+                if not (isinstance(out, list) and len(out) == len(msgs) and all(isinstance(r, list) and len(r) == N and all(isinstance(v, (int, float)) and not isinstance(v, bool) for v in r) for r in out)):
+                    return None, f"N = {N}: the result is not a ({len(msgs)}, {N}) block"
+                Gp = [[G[i][int(format(j, f"0{m}b")[::-1], 2)] for j in range(N)] for i in range(N)] if pi else G
+                for msg, got in zip(msgs, out):
+                    u = [0 if fz else 1] * N
+                    for t, pos in enumerate(info):
+                        u[pos] = msg[t]
+                    want = [sum(u[i] * Gp[i][j] for i in range(N)) % 2 for j in range(N)]
+                    if [float(v) for v in got] != [float(v) for v in want]:
+                        return VIOLATION, f"N = {N}, information positions {info}, frozen value {0 if fz else 1}, {'interleaved' if pi else 'plain'}: message {msg} is encoded as {[int(v) if float(v) == int(v) else v for v in got]}; u = {u} times {'B_N ' if pi else ''}F^(x){m} is {want} - the decoders (which take frozen value, interleaving and information set from the encoder) do not invert this map"
+                    words += 1
+    return OK, f"{words} codewords (N = 4, 8; every message; frozen 0 / 1; plain / interleaved; scattered information sets) equal u F^(x)m with the message on the information positions in order and the configured frozen value elsewhere"
+
+
 def rule_frozen_value(repo: Repo, rep: Report) -> int:
     n = 0
     fwd = repo.func(PE, "PolarCodeEncoder.forward")
     cl = fwd.nested("encode_fn")
+    est_, ed_ = encoder_evaluated(repo)
+    if est_ is not None:
+        rep.add("FROZEN-VALUE", cl or fwd, "encoder block function evaluated: every message for N = 4, 8, both frozen values, plain and interleaved", est_, ed_, node=(cl or fwd).node)
+        n += 2
+        return n + _frozen_value_decoders(repo, rep)
     ifs = [s for s in stmts_of(cl.body) if isinstance(s, ast.If)] if cl else []
     ok = False
     if len(ifs) == 1 and unparse(ifs[0].test) == "self.frozen_zeros":
@@ -148,6 +207,11 @@ def rule_frozen_value(repo: Repo, rep: Report) -> int:
     body = [unparse(s) for s in stmts_of(cl.body)] if cl else []
     rep.expect("codeword[:, self.info_indices] = x.view(bs, self.code_dimension)" in body and "codeword = self.polar_transform(codeword, return_arr=False)" in body, "FROZEN-VALUE", cl or fwd, "message bits stored at the information positions, then the polar transform", "u = (message on the information set, frozen value elsewhere); x = transform(u)", "placement / transform order changed")
     n += 2
+    return n + _frozen_value_decoders(repo, rep)
+
+
+def _frozen_value_decoders(repo: Repo, rep: Report) -> int:
+    n = 0
     # SC leaf
     dr = repo.func(SC, "SuccessiveCancellationDecoder.decode_recursive")
     leaf_ifs = [s for s in stmts_of(dr.body) if isinstance(s, ast.If) and unparse(s.test) == "self.frozen_zeros"]
